@@ -479,6 +479,8 @@ class Num(Val):
         self.mid = None         # D8 memory identity: arrays with the same mid share storage
         self.whole = True       # ... and hold the same elements in the same order (same object / zero-copy identity), not a partial view
         self.grid = None        # integer index grid: value at (i, k) = ai*i + ak*k + c, stored as (ai, ak, c); 1-D vectors use ak = 0
+        self.conj_of = None     # uid of the array this one is the complex conjugate of
+        self.fill = None        # constant a fresh buffer was filled with (zeros / ones / full), until it is written
         self.idx = False        # an integer index vector (arange and its integer shifts): value = index - org
         self.rowof = None       # a row M[e] of a matrix with a block map: (blocks, e)
         self.clob = None        # the storage was overwritten through another name: description of that write
